@@ -11,6 +11,7 @@ CONSTANTS
   Catalogue <- CatBig
   MaxHist = 5
   DecoderScope = "perIteration"
+  EqKinds <- KindsPlain
   CopyVariant = "copy"
 VIEW ViewNoHist
 INVARIANT PerIterationDecode
